@@ -246,10 +246,16 @@ CLAIMED['C09'] = dict(
          'model\'s placement node by node - server, identity, identity_count, expires - and nothing else is touched) '
          'and C09_startup_content (after init_schedule every node of the model carries the current data), for all tuple lists and stores, under the two stated hypotheses tying the store to '
          'what the cycle read (within_before, unchanged_published), each shown necessary by a _refuted witness; '
-         'publication shape re-extracted from the AST each run. Partial: preservation of the two hypotheses by the '
-         'event handlers between cycles, is decided '
-         'by the oracle on the real Master (content of every node compared with Master.cell after every cycle and '
-         'restart) and the write-list correspondence.',
+         'publication shape re-extracted from the AST each run. Between cycles (third session, sub-agent): '
+         'Master/Handlers.v + Props/C09Handlers.v model the Master\'s event handlers at the same abstraction (13 '
+         'operations incl. cycle, integrity check and restart); C09H_invariant_all_histories (the invariant "every entry '
+         'is the model\'s placement with its published data" is kept by every operation except the uses listed as known '
+         'findings), C09H_hypotheses_hold_at_next_cycle (it yields within_before and unchanged_published) and '
+         'C09H_published_equals_model_all_histories (published = model after every cycle of every history over the '
+         'sound operations); the known exceptions are C09H_*_refuted witnesses in the same alphabet. Every hop of an '
+         'E-master history is compared with the model\'s state and the invariant is evaluated on the real snapshots '
+         '(harness/props/c09handlers.py); the oracle on the real Master (content of every node compared with '
+         'Master.cell after every cycle and restart) and the write-list correspondence remain.',
     note=MASTER_NOTE + ' Every cycle preceded by a Tick of at least 1 s; identity_count is not part of the statement.',
     technique='Rocq proof over AST-regenerated publication shape + content oracle on the real Master over an '
               'in-memory backend + differential correspondence (cases.v/vm_compute)',
@@ -291,9 +297,17 @@ CLAIMED['C15'] = dict(
          'None<->empty payload; schema-generic LDAP entry store/load normal form for the 15 generated schemas; and '
          '_diff_entries applied to old yields new. Alphabets, templates, regex texts, enum tables and schemas are '
          'regenerated from the source every run and checked by vm_compute; function behaviour is tied by '
-         'differential execution of model and implementation on structured and malformed streams.',
+         'differential execution of model and implementation on structured and malformed streams. Per-class LDAP '
+         'wrappers (third session, sub-agent): Codec/LdapCls.v + Props/C15Ldap.v, 24 theorems - the option-indexed '
+         'list codec reads any set of distinctly named option groups as the sorted normal forms whatever the indices '
+         '(C15L_option_list_read / _roundtrip), and from_entry(_remove_empty(to_entry x)) = nf x with nf idempotent '
+         'for all nine classes (Server, DNS, AppGroup, Tenant, Allocation, Cell, CellAllocation, Partition, '
+         'Application) on the typed domain; 28 schema tables and 60 constants regenerated from the source '
+         '(C15L_tables_ok); the lossy places outside the typed domain are _refuted witnesses; own correspondence '
+         'stage and oracle (harness/props/c15ldap.py).',
     note='Partial theorem for events: why=None of pending/pending_delete/aborted is a known finding, with a refuted '
-         'witness. LDAP per-class wrappers and option-indexed lists are oracle-only. ASCII-only regex and int() '
+         'witness. LDAP: from_entry is modelled without a dn (the _id of CellAllocation and the partition/cell keys of '
+         'Partition come from the dn); float is modelled for plain decimal numerals only. ASCII-only regex and int() '
          'models; floats, surrogates and the YAML fallback are outside the JSON model; the LDAP server is modelled as '
          '_remove_empty plus ADD/REPLACE/DELETE; Python string/format semantics are modelled.',
     technique='Rocq proof over source-regenerated tables (module values plus fail-closed AST extraction) with '
@@ -329,7 +343,14 @@ CLAIMED['C03'] = dict(
          'eviction, failed renewal). C03_cycle_spec (the same from any state with the invariants), C03_put_guard, '
          'C03_fresh_put_only_up / C03_eviction_only_up, C03_cycle_is_guarded_steps. C03_after_refuted: machine-checked '
          'witness that the "after every cycle" half fails on the code as it is (an instance re-assigned to an '
-         'allocation of another partition keeps its old server; known finding).'),
+         'allocation of another partition keeps its old server; known finding). Loader glue (third session, '
+         'sub-agent): Master/LoadApp.v + Props/C03Load.v, 31 theorems over a model of Loader.load_app / create_server / '
+         'Application.__init__ whose key-to-argument table is re-extracted from the AST every run (C03L_tables_ok): '
+         'every declared attribute - partition label with the _default fallback, traits, lease and data retention '
+         'in seconds for every spelling, affinity and its limits, demand and capacity order, identity group, the '
+         'priority rule - reaches the scheduler object unchanged; a reload of an existing instance refreshes only '
+         'priority, data retention and the blacklist flag (C06L_refresh_frame); correspondence stage on 2400 / 40000 '
+         'structured manifests and server records through the real Loader.'),
     note=SCHED_NOTE + ' Hypotheses of the all-histories theorems (wf_ops_all): a new server or instance has a fresh name and vectors of '
          'the cell dimension, a new instance record is not placed and holds no identity, configured counts are '
          'non-negative.',
